@@ -119,6 +119,11 @@ fn cmd_check(args: &[String]) {
         Tier::Quick => prop.cases.0 * 8,
         Tier::Thorough => prop.cases.1 * 3,
     });
+    // OHV_CASE_SCALE=<float>: sensitivity experiments only (mutation runs use a fraction of the cases)
+    let total_cases = match std::env::var("OHV_CASE_SCALE").ok().and_then(|s| s.parse::<f64>().ok()) {
+        Some(f) if o.cases.is_none() => ((total_cases as f64) * f).max(16.0) as u64,
+        _ => total_cases,
+    };
 
     // the release-build half runs in a child process (a different binary)
     let release_bin = std::env::var("OHV_RELEASE_BIN").ok().filter(|s| !s.is_empty());
